@@ -56,7 +56,7 @@ def run_check(patch, prop, tier="quick"):
         rc, out = sh([os.path.join(VERIF, "check"), prop, "--tier", tier], cwd=VERIF,
                      env={"VERIF_REPO": repo, "VERIF_OUT": d + "/out"}, timeout=7200)
         viol = [l for l in out.splitlines() if l.startswith("VIOLATION") or l.startswith("   why")][:4]
-        return {"check": prop, "tier": tier, "rc": rc, "detected": rc == 1, "first": viol, "tail": out.strip().splitlines()[-1:] }
+        return {"check": prop, "tier": tier, "rc": rc, "detected": rc == 1 and any(l.startswith("VIOLATION") for l in out.splitlines()), "first": viol, "tail": out.strip().splitlines()[-1:] }
     finally:
         shutil.rmtree(d, ignore_errors=True)
 
